@@ -1,5 +1,5 @@
 use alloc::boxed::Box;
-use core::marker::PhantomData;
+use core::{marker::PhantomData, mem::ManuallyDrop, ptr};
 
 use crate::{
     collect::Collect,
@@ -119,7 +119,21 @@ where
     R: for<'a> Rootable<'a>,
 {
     context: Box<Context>,
-    root: Root<'static, R>,
+    // The root may have a destructor that dereferences the `Gc` pointers it holds, so it must be
+    // dropped *before* the context frees every allocation. It has to be the last field since it may
+    // be unsized, which is the wrong way around for the automatic drop order: `Arena::drop` drops it
+    // by hand instead.
+    root: ManuallyDrop<Root<'static, R>>,
+}
+
+impl<R> Drop for Arena<R>
+where
+    R: for<'a> Rootable<'a>,
+{
+    fn drop(&mut self) {
+        // SAFETY: the root is never touched again; `context` is dropped after this returns.
+        unsafe { ManuallyDrop::drop(&mut self.root) }
+    }
 }
 
 impl<R> Arena<R>
@@ -144,7 +158,10 @@ where
             // and lets us stay compatible with older versions of Rust
             let mc: &'static Mutation<'_> = &*(context.mutation_context() as *const _);
             let root: Root<'static, R> = f(mc);
-            Arena { context, root }
+            Arena {
+                context,
+                root: ManuallyDrop::new(root),
+            }
         }
     }
 
@@ -157,47 +174,66 @@ where
             let context = Box::new(Context::new());
             let mc: &'static Mutation<'_> = &*(context.mutation_context() as *const _);
             let root: Root<'static, R> = f(mc)?;
-            Ok(Arena { context, root })
+            Ok(Arena {
+                context,
+                root: ManuallyDrop::new(root),
+            })
+        }
+    }
+
+    /// Takes the arena apart without running `Arena::drop`. Should the returned values be dropped,
+    /// the root is dropped before the context (locals are dropped in reverse order).
+    #[inline]
+    fn into_parts(self) -> (Box<Context>, Root<'static, R>) {
+        let mut this = ManuallyDrop::new(self);
+        // SAFETY: `this` is never dropped nor used again, so both fields are moved out exactly once.
+        unsafe {
+            (
+                ptr::read(&this.context),
+                ManuallyDrop::take(&mut this.root),
+            )
         }
     }
 
     #[inline]
     pub fn map_root<R2>(
-        mut self,
+        self,
         f: impl for<'gc> FnOnce(&'gc Mutation<'gc>, Root<'gc, R>) -> Root<'gc, R2>,
     ) -> Arena<R2>
     where
         R2: for<'a> Rootable<'a>,
         for<'a> Root<'a, R2>: Sized,
     {
-        self.context.root_barrier();
+        let (mut context, root) = self.into_parts();
+        context.root_barrier();
         let new_root: Root<'static, R2> = unsafe {
-            let mc: &'static Mutation<'_> = &*(self.context.mutation_context() as *const _);
-            f(mc, self.root)
+            let mc: &'static Mutation<'_> = &*(context.mutation_context() as *const _);
+            f(mc, root)
         };
         Arena {
-            context: self.context,
-            root: new_root,
+            context,
+            root: ManuallyDrop::new(new_root),
         }
     }
 
     #[inline]
     pub fn try_map_root<R2, E>(
-        mut self,
+        self,
         f: impl for<'gc> FnOnce(&'gc Mutation<'gc>, Root<'gc, R>) -> Result<Root<'gc, R2>, E>,
     ) -> Result<Arena<R2>, E>
     where
         R2: for<'a> Rootable<'a>,
         for<'a> Root<'a, R2>: Sized,
     {
-        self.context.root_barrier();
+        let (mut context, root) = self.into_parts();
+        context.root_barrier();
         let new_root: Root<'static, R2> = unsafe {
-            let mc: &'static Mutation<'_> = &*(self.context.mutation_context() as *const _);
-            f(mc, self.root)?
+            let mc: &'static Mutation<'_> = &*(context.mutation_context() as *const _);
+            f(mc, root)?
         };
         Ok(Arena {
-            context: self.context,
-            root: new_root,
+            context,
+            root: ManuallyDrop::new(new_root),
         })
     }
 }
@@ -217,7 +253,7 @@ where
     {
         unsafe {
             let mc: &'static Mutation<'_> = &*(self.context.mutation_context() as *const _);
-            let root: &'static Root<'_, R> = &*(&self.root as *const _);
+            let root: &'static Root<'_, R> = &*(&*self.root as *const _);
             f(mc, root)
         }
     }
@@ -232,7 +268,7 @@ where
         self.context.root_barrier();
         unsafe {
             let mc: &'static Mutation<'_> = &*(self.context.mutation_context() as *const _);
-            let root: &'static mut Root<'_, R> = &mut *(&mut self.root as *mut _);
+            let root: &'static mut Root<'_, R> = &mut *(&mut *self.root as *mut _);
             f(mc, root)
         }
     }
@@ -285,7 +321,7 @@ where
     pub fn collect_debt(&mut self) {
         unsafe {
             self.context
-                .do_collection(&self.root, RunUntil::PayDebt, Stop::Full);
+                .do_collection(&*self.root, RunUntil::PayDebt, Stop::Full);
         }
     }
 
@@ -302,7 +338,7 @@ where
     pub fn mark_debt(&mut self) -> Option<MarkedArena<'_, R>> {
         unsafe {
             self.context
-                .do_collection(&self.root, RunUntil::PayDebt, Stop::FullyMarked);
+                .do_collection(&*self.root, RunUntil::PayDebt, Stop::FullyMarked);
         }
 
         if self.context.phase() == Phase::Mark && !self.context.gray_remaining() {
@@ -324,7 +360,7 @@ where
     pub fn finish_marking(&mut self) -> Option<MarkedArena<'_, R>> {
         unsafe {
             self.context
-                .do_collection(&self.root, RunUntil::Stop, Stop::FullyMarked);
+                .do_collection(&*self.root, RunUntil::Stop, Stop::FullyMarked);
         }
 
         if self.context.phase() == Phase::Mark && !self.context.gray_remaining() {
@@ -348,7 +384,7 @@ where
     pub fn cycle_debt(&mut self) {
         unsafe {
             self.context
-                .do_collection(&self.root, RunUntil::PayDebt, Stop::FinishCycle);
+                .do_collection(&*self.root, RunUntil::PayDebt, Stop::FinishCycle);
         }
     }
 
@@ -360,7 +396,7 @@ where
     pub fn finish_cycle(&mut self) {
         unsafe {
             self.context
-                .do_collection(&self.root, RunUntil::Stop, Stop::FinishCycle);
+                .do_collection(&*self.root, RunUntil::Stop, Stop::FinishCycle);
         }
     }
 }
@@ -388,7 +424,7 @@ where
         unsafe {
             let mc: &'static Finalization<'_> =
                 &*(self.0.context.finalization_context() as *const _);
-            let root: &'static Root<'_, R> = &*(&self.0.root as *const _);
+            let root: &'static Root<'_, R> = &*(&*self.0.root as *const _);
             f(mc, root)
         }
     }
@@ -400,7 +436,7 @@ where
         unsafe {
             self.0
                 .context
-                .do_collection(&self.0.root, RunUntil::Stop, Stop::AtSweep);
+                .do_collection(&*self.0.root, RunUntil::Stop, Stop::AtSweep);
         }
         assert_eq!(self.0.context.phase(), Phase::Sweep);
     }
